@@ -46,6 +46,10 @@ def warm_start(
     pcount = f.variables["particle_count"][-1]
     pend = pstart + pcount
     pid_max = np.max(f.variables["pid"][:]) + 1
+    # Particle variables are stored for every pid handed out so far, also for
+    # particles that died without appearing in this file
+    if "particle" in f.dimensions:
+        pid_max = max(pid_max, len(f.dimensions["particle"]))
 
     logger.info("antall partikler = %s", pcount)
 
